@@ -104,7 +104,8 @@ def optField (j : Json) (k : String) : Option Json :=
   | .ok x => some x
   | .error _ => none
 
-def run (j : Json) : Except String Json := do
+/-- one call, threading the model of the process-wide serialization-mapper cache -/
+def runOne (cache : Cache) (j : Json) : Except String (List (String × Json) × Cache) := do
   let S := asciiFns
   let c ← clsOfJson (← j.getObjVal? "cls")
   let camel ← (← j.getObjVal? "camel").getBool?
@@ -116,7 +117,14 @@ def run (j : Json) : Except String Json := do
     | none => pure []
     | some x => (← x.getArr?).toList.mapM fun e => do pure (← (← e.getArr?)[0]!.getStr?)
   let x ← treeOfJson (← j.getObjVal? "inst")
-  let ms := aggregate S true c.own c.fields ov camel
+  let cid := match optField j "cid" with | some (.str n) => n | _ => ""
+  let ovKey := match ov, optField j "explicit" with
+    | some (_ :: _), some e => e.compress
+    | _, _ => ""
+  let wrapOk := wrapperOk S (c.fields.map Fld.name) ovKeys
+  -- the serializer runs (and fills the cache) only if the wrapper was built
+  let (ms, cache') := if wrapOk then cachedAggregate S cache cid ovKey c.own c.fields ov camel
+    else (aggregate S true c.own c.fields ov camel, cache)
   let md := aggregate S false c.own c.fields ov camel
   let doc := ser S camel ms x
   let spec := specSer S (effList c.own ov camel) c.fields x
@@ -130,7 +138,8 @@ def run (j : Json) : Except String Json := do
     ("deser", resToJson des),
     ("aggS", mvToJson (.sub ms)),
     ("aggD", mvToJson (.sub md)),
-    ("wrapper", Json.bool (wrapperOk S (c.fields.map Fld.name) ovKeys)),
+    ("wrapper", Json.bool wrapOk),
+    ("cacheHit", Json.bool (cache'.length == cache.length && wrapOk)),
     ("hyp", Json.mkObj [
       ("rt", Json.bool (rtCls S camel (levelOK S) c ms ov strict xc)),
       ("dom", Json.bool (rtCls S camel (levelDom S) c ms ov strict xc)),
@@ -149,6 +158,20 @@ def run (j : Json) : Except String Json := do
     | some d => do
       let d ← treeOfJson d
       pure [("implDeser", resToJson (deser S camel c ov strict d))]
-  pure (Json.mkObj (base ++ extra ++ implLaw))
+  pure (base ++ extra ++ implLaw, cache')
+
+/-- the history (`pre`, in order) and then the main call, all on one cache -/
+def run (j : Json) : Except String Json := do
+  let pre ← match optField j "pre" with
+    | none => pure []
+    | some p => do pure (← p.getArr?).toList
+  let mut cache : Cache := []
+  let mut outs : List Json := []
+  for pj in pre do
+    let (o, c') ← runOne cache pj
+    cache := c'
+    outs := outs ++ [Json.mkObj o]
+  let (o, _) ← runOne cache j
+  pure (Json.mkObj (o ++ (if pre.isEmpty then [] else [("pre", Json.arr outs.toArray)])))
 
 end Typedpy.Drive.Mapper
